@@ -299,7 +299,7 @@ def run(ctx):
         count_classes(ctx, lines[:200000])
         ctx.sample({"tlc_script": scripts[len(scripts) // 2]})
     # 5. code -> spec
-    nh, ml = (8000, 40) if thorough else (1000, 40)
+    nh, ml = (5000, 40) if thorough else (1000, 40)
     tpath = os.path.join(ctx.workdir, "recorded.ndjson")
     rc, out = vlib.run_harness(binary, ["record", tpath, ctx.seed, nh, ml], timeout=3000)
     lines = judge_file(ctx, tpath, "random history", rc, out)
